@@ -20,7 +20,7 @@ import (
 
 func TestMain(m *testing.M) {
 	document.SetGlobalLevel(document.LogLevelSilent)
-	kit.TestMain(m, 3000, 30000)
+	kit.TestMain(m, 2000, 30000)
 }
 
 // Op kinds: settings (full struct), size, custom, orient, margins, hfdist, gutter, grid, cleargrid, nil, reopen, para (unrelated edit)
@@ -98,8 +98,11 @@ func genCase(t *rapid.T) Case {
 			} else {
 				w, h, _ = customPair(t)
 			}
+			// one call in five may carry negative lengths: the docs do not say whether the full-struct
+			// call rejects them, so the oracle accepts either outcome but demands that a rejection changes nothing
+			loose := rapid.IntRange(0, 4).Draw(t, "loose") == 0
 			o.S = []string{size, orient(), rapid.SampledFrom(grids).Draw(t, "grid")}
-			o.F = []float64{w, h, lenGen(t, "mt", false), lenGen(t, "mr", false), lenGen(t, "mb", false), lenGen(t, "ml", false), lenGen(t, "hd", false), lenGen(t, "fd", false), lenGen(t, "g", false)}
+			o.F = []float64{w, h, lenGen(t, "mt", loose), lenGen(t, "mr", loose), lenGen(t, "mb", loose), lenGen(t, "ml", loose), lenGen(t, "hd", loose), lenGen(t, "fd", loose), lenGen(t, "g", loose)}
 			o.I = []int{rapid.IntRange(0, 1000).Draw(t, "lp"), rapid.IntRange(0, 400).Draw(t, "cs")}
 		case "size":
 			o.S = []string{string(rapid.SampledFrom(sizes).Draw(t, "size"))}
@@ -311,6 +314,7 @@ func run(c Case) *kit.Result {
 		snapBefore := sectSnapshot(doc)
 		nm := m
 		valid := true
+		either := false // undocumented either way: rejection (changing nothing) and acceptance (reading back as set) are both fine
 		var err error
 		var call func()
 		validOrient := func(s string) bool { return s == "portrait" || s == "landscape" }
@@ -322,6 +326,14 @@ func run(c Case) *kit.Result {
 				DocGridType: document.DocGridType(op.S[2]), DocGridLinePitch: op.I[0], DocGridCharSpace: op.I[1]}
 			call = func() { err = doc.SetPageSettings(ps) }
 			valid = validOrient(op.S[1]) && (op.S[0] != "Custom" || validCustom(op.F[0], op.F[1]))
+			for _, v := range op.F[2:] {
+				if v < 0 {
+					either = valid
+				}
+			}
+			if op.S[2] == "" {
+				either = valid
+			}
 			if op.S[0] == "Custom" {
 				nm.Predef, nm.W, nm.H = "", op.F[0], op.F[1]
 			} else {
@@ -405,7 +417,13 @@ func run(c Case) *kit.Result {
 			res.Fail("C12.S0", "op %d %s panicked: %v [%s]", i, op.K, p, st)
 			return res
 		}
-		if !valid {
+		if either {
+			res.Label("settings:undocumented-values")
+			if err != nil {
+				res.Label("settings:undocumented-values-rejected")
+			}
+		}
+		if !valid || (either && err != nil) {
 			rejected++
 			res.Eval("C12.S1")
 			shape = append(shape, op.K+":rej")
@@ -467,7 +485,7 @@ func TestC12(t *testing.T) {
 		Rule: "history of 1-25 page-setting calls (SetPageSettings full struct, SetPageSize, SetCustomPageSize, SetPageOrientation, SetPageMargins, SetHeaderFooterDistance, SetGutterWidth, SetDocGrid, ClearDocGrid, nil settings, unrelated edits, save/reopen) with values across the valid ranges, at the bounds +-0.01, outside, near each predefined size in both aspects (+-0.3..2 mm), negative/zero lengths and invalid orientation strings; reference model = last value per attribute (defaults otherwise), compared after every call with GetPageSettings (1 twip tolerance; 1 mm for near-standard sizes) and with w:pgSz/w:pgMar of the saved part. non-trivial = >=3 accepted setting calls and (>=1 rejected call or >=1 reopen); distinct = distinct sequence of (op kind, accepted/rejected)",
 		Gen:  genCase, Run: run, Findings: findings,
 		MustSee: map[string]float64{"custom+landscape": 0.15, "custom:near-standard": 0.05, "custom:near-standard-rotated": 0.05, "custom:bounds": 0.1, "rejected-op": 0.4, "reopen": 0.3},
-		Assumptions: []string{"SetPageSettings is only given non-negative margins and a non-empty grid type (negative values and an empty grid type in the full struct are not documented either way)",
+		Assumptions: []string{"negative lengths in the full-struct SetPageSettings call are not documented either way: the check accepts rejection (nothing may change) or acceptance (values read back as set); an empty grid type in the full struct is not generated (its meaning is undocumented)",
 			"unknown PageSize names are not generated (not documented as invalid)"},
 	})
 }
